@@ -287,20 +287,55 @@ def run(chk, repo):
     db = docstring_free(dg.body)
     ok = unparse(db[0]) == "unpacker = WavStream._unpackers[self.bits]" and isinstance(db[1], ast.If) and unparse(db[1].test) == "keep"
     chk.decide(ok, "C18.decode", WW("WavStream.data_generator"), short(db[0]), why="decoder chosen by the file's width", node=dg)
+    def _decode_loop(stmts, divisor):
+        """the loop yields unpacker(sample) [/ divisor] for every item of sample_reader(), in either spelling"""
+        loops = [s_ for s_ in stmts if isinstance(s_, ast.For)]
+        if len(loops) != 1 or len(loops[0].body) != 1:
+            return False, "loop missing"
+        lp = loops[0]
+        y = lp.body[0]
+        if not (isinstance(y, ast.Expr) and isinstance(y.value, ast.Yield) and y.value.value is not None):
+            return False, short(lp)
+        v = unparse(lp.target)
+        it_, val = unparse(lp.iter), unparse(y.value.value)
+        direct = it_ == "sample_reader()" and val == ("unpacker(%s)" % v if divisor is None else "unpacker(%s) / %s" % (v, divisor))
+        mapped = it_ in ("xmap(unpacker, sample_reader())", "map(unpacker, sample_reader())") \
+            and val == (v if divisor is None else "%s / %s" % (v, divisor))
+        return direct or mapped, short(lp)
     if ok:
         kb = db[1].body
-        ok = len(kb) == 1 and isinstance(kb[0], ast.For) and unparse(kb[0].iter) == "sample_reader()" \
-            and [unparse(s) for s in kb[0].body] == ["yield unpacker(%s)" % unparse(kb[0].target)]
-        chk.decide(ok, "C18.decode", WW("WavStream.data_generator"), "keep: " + short(kb[0]),
+        good, what = _decode_loop(kb, None)
+        chk.decide(good and len(kb) == 1, "C18.decode", WW("WavStream.data_generator"), "keep: " + what,
                    why="with keep the stored integers are yielded as they are", node=dg)
         nb = db[1].orelse
-        txt = [unparse(s) for s in nb]
-        okn = len(nb) == 3 and txt[0] == "d = 1 << self.bits - 1" \
-            and txt[1] == "if self.bits == 8:\n    unpacker = lambda v: ord(v) - 128" \
-            and isinstance(nb[2], ast.For) and unparse(nb[2].iter) == "sample_reader()" \
-            and len(nb[2].body) == 1 and isinstance(nb[2].body[0], ast.Expr) and isinstance(nb[2].body[0].value, ast.Yield) \
-            and unparse(nb[2].body[0].value.value) == "unpacker(%s) / d" % unparse(nb[2].target)
-        chk.decide(okn, "C18.decode", WW("WavStream.data_generator"), "normalised: " + " ; ".join(t.replace("\n", " ") for t in txt)[:160],
+        txt = [unparse(s_) for s_ in nb]
+        dasg = [s_ for s_ in nb if isinstance(s_, ast.Assign) and isinstance(s_.targets[0], ast.Name)
+                and unparse(s_.value) in ("1 << self.bits - 1", "2 ** (self.bits - 1)")]
+        dname = unparse(dasg[0].targets[0]) if len(dasg) == 1 else None
+        eight = [s_ for s_ in nb if isinstance(s_, ast.If) and unparse(s_.test) in ("self.bits == 8", "8 == self.bits")
+                 and not s_.orelse and len(s_.body) == 1]
+        ok8 = False
+        desc8 = "8-bit override missing"
+        if len(eight) == 1:
+            b8 = eight[0].body[0]
+            from .. import bytecodec as bc
+            expr8 = None
+            if isinstance(b8, ast.Assign) and unparse(b8.targets[0]) == "unpacker":
+                expr8 = b8.value
+            elif isinstance(b8, FuncTypes) and b8.name == "unpacker":
+                expr8 = ast.Lambda(args=b8.args, body=docstring_free(b8.body)[-1].value) \
+                    if len(docstring_free(b8.body)) == 1 and isinstance(docstring_free(b8.body)[-1], ast.Return) else None
+            if expr8 is not None:
+                try:
+                    got8 = bc.decode(repo, LW, expr8, 1)
+                    ok8 = isinstance(got8, bc.Int) and got8.key() == bc.Int({0: 1}, -128).key()
+                    desc8 = "8 bits: %s" % (got8.describe() if isinstance(got8, bc.Int) else got8)
+                except (bc.Undecided, bc.WrongSize) as ex:
+                    raise AnalysisError("8-bit normalisation not interpretable: %s" % ex)
+        goodl, whatl = _decode_loop(nb, dname)
+        okn = dname is not None and ok8 and goodl and len(nb) == 3
+        chk.decide(okn, "C18.decode", WW("WavStream.data_generator"),
+                   "normalised: divisor %s ; %s ; %s" % (unparse(dasg[0].value) if dasg else "?", desc8, whatl),
                    why="samples must be (value, minus 128 for unsigned 8 bits) divided by 2**(bits-1): range [-1, 1)", node=dg)
     fut = [n for n in wmod.tree.body if isinstance(n, ast.ImportFrom) and n.module == "__future__" and
            any(a.name == "division" for a in n.names)]
